@@ -63,15 +63,16 @@ type regEnt struct {
 }
 
 type regWorld struct {
-	w      *ecs.World
-	types  []reflect.Type
-	isRel  []bool
-	ids    []ecs.ID
-	ents   []*regEnt
-	nRes   int
-	serial int
-	labels map[string]bool
-	nontri bool
+	w                  *ecs.World
+	types              []reflect.Type
+	isRel              []bool
+	ids                []ecs.ID
+	ents               []*regEnt
+	nRes               int
+	serial             int
+	fanned, relTargets bool
+	labels             map[string]bool
+	nontri             bool
 }
 
 func (r *regWorld) valueMask(tp reflect.Type) []byte {
@@ -178,7 +179,7 @@ func (r *regWorld) checkEntities() string {
 			if !found {
 				return fmt.Sprintf("entity slot %d is not found by Query(All(id %d)) although it has the component", ei, t)
 			}
-			if r.isRel[t] {
+			if r.isRel[t] && !r.relTargets {
 				if tg := r.w.Relations().Get(e.h, r.ids[t]); !tg.IsZero() {
 					return fmt.Sprintf("entity slot %d: relation id %d has target %v, none was assigned", ei, t, tg)
 				}
@@ -397,6 +398,42 @@ func (r *regWorld) apply(op regOp) string {
 			r.w.RemoveEntity(r.ents[i].h)
 			r.ents[i] = nil
 		}
+	case "fan":
+		// more relation tables in one node than a storage page holds (32); the last children are tracked
+		rt := -1
+		for t := nt - 1; t >= 0; t-- {
+			if r.isRel[t] {
+				rt = t
+				break
+			}
+		}
+		if rt < 0 || r.fanned {
+			return ""
+		}
+		r.fanned = true
+		var last [2]*regEnt
+		if p := core.Call(func() {
+			for i := 0; i < 36; i++ {
+				parent := r.w.NewEntity()
+				h := ecs.NewBuilder(r.w, r.ids[rt]).WithRelation(r.ids[rt]).New(parent)
+				last[i%2] = &regEnt{h: h, vals: map[int][]byte{rt: make([]byte, r.types[rt].Size())}, bornAt: nt}
+			}
+		}); p != nil {
+			return fmt.Sprintf("creating 36 parents with one child each panicked: %v", p)
+		}
+		r.relTargets = true
+		for _, e := range last {
+			if len(r.ents) < 8 {
+				r.ents = append(r.ents, e)
+			} else {
+				old := r.ents[op.E%8]
+				if old != nil {
+					r.w.RemoveEntity(old.h)
+				}
+				r.ents[op.E%8] = e
+			}
+		}
+		r.label("fan: 36 relation tables in one node")
 	case "lockreg":
 		if nt >= ecs.MaskTotalBits {
 			return ""
@@ -523,7 +560,7 @@ func TestC16(t *testing.T) {
 					c.Ops = append(c.Ops, regOp{K: "new", T: []int{-1, 0}, E: 0})
 				}
 			}
-			kinds := []string{"reg", "reg", "reg", "reg", "rereg", "new", "new", "add", "add", "add", "rem", "write", "write", "rment", "lockreg", "regres", "fill", "fillres"}
+			kinds := []string{"reg", "reg", "reg", "reg", "rereg", "new", "new", "add", "add", "add", "rem", "write", "write", "rment", "lockreg", "regres", "fill", "fillres", "fan"}
 			for i := 0; i < nops; i++ {
 				k := rapid.SampledFrom(kinds).Draw(rt, "k")
 				if (k == "fill" || k == "fillres") && rapid.IntRange(0, 3).Draw(rt, "rare") != 0 {
